@@ -79,9 +79,10 @@ def plan(tier, seed, complete=False):
         settings = ["S:all"]
     # settings are split by rule so that shards balance
     return {
-        "items": [f"E:{i}" for i in idx] + [f"S:{k}" for k in range(46)] + [f"A:{k}" for k in range(46)] + [f"X:{k}" for k in range(len(strict_cases()))],
+        "items": [f"E:{i}" for i in idx] + [f"S:{k}" for k in range(46)] + [f"A:{k}" for k in range(46)] + [f"X:{k}" for k in range(len(strict_cases()))] + [f"V:{k}" for k in range(N_V)],
         "zones": {"precedence lattice": {"universe": len(pc), "run": len(idx)}, "settings": {"rules": 46}, "addressing (every identifier of every rule x 4 layers)": {"rules": 46},
-                  "strict-mode sources": {"universe": len(strict_cases()), "run": len(strict_cases())}},
+                  "strict-mode sources": {"universe": len(strict_cases()), "run": len(strict_cases())},
+                  "setting value precedence (md013.line_length in 4 layers)": {"universe": N_V, "run": N_V}},
         "exhaustive": True,
         "rule": "precedence: every {unset,true,false} assignment to the 4 layers x {none,-e,-d} x naming {id, alias...} x 2 rules x 3 file formats, "
         "checked against the executable precedence model through `plugins list` and a probe scan; settings: every configuration item of every rule x "
@@ -357,6 +358,60 @@ def run_addressing(k, sb, app, pm, R):
 
 
 # ------------------------------------------------------------------------------------------------
+# V: the same precedence for a *setting* (not only for `enabled`): md013.line_length given a different value
+# in each layer; the probe's lines of 25/40/60/80/100 characters show which value is in force
+V_VALUES = {"set": 30, "config": 50, "default": 70, "pyproject": 90}
+V_LENGTHS = [25, 40, 60, 85, 100]
+N_V = 16 * 3 * 2
+
+
+def run_value(ci, sb, app, R):
+    bits, rest = ci % 16, ci // 16
+    fmt, named = rest % 3, rest // 3
+    key = "line-length" if named else "md013"
+    present = {"set": bool(bits & 1), "config": bool(bits & 2), "default": bool(bits & 4), "pyproject": bool(bits & 8)}
+    sb.clear_files()
+    args = ["--log-level", "CRITICAL", "-d", "md041,md047"]
+    fname, dname, dkind = FORMATS[fmt]
+    if present["pyproject"]:
+        sb.write("pyproject.toml", f"[tool.pymarkdown]\nplugins.{key}.line_length = {V_VALUES['pyproject']}\n")
+    if present["default"]:
+        if dkind == "json":
+            sb.write(dname, json.dumps({"plugins": {key: {"line_length": V_VALUES["default"]}}}))
+        else:
+            sb.write(dname, f"plugins:\n  {key}:\n    line_length: {V_VALUES['default']}\n")
+    if present["config"]:
+        if fname == "json":
+            sb.write("c.json", json.dumps({"plugins": {key: {"line_length": V_VALUES["config"]}}}))
+            args += ["--config", "c.json"]
+        elif fname == "yaml":
+            sb.write("c.yaml", f"plugins:\n  {key}:\n    line_length: {V_VALUES['config']}\n")
+            args += ["--config", "c.yaml"]
+        else:
+            sb.write("c.toml", f"[plugins.{key}]\nline_length = {V_VALUES['config']}\n")
+            args += ["--config", "c.toml"]
+    if present["set"]:
+        args += ["--set", f"plugins.{key}.line_length=$#{V_VALUES['set']}"]
+    want = next((V_VALUES[k] for k in ("set", "config", "default", "pyproject") if present[k]), 80)
+    # short words, so that every over-long line has white space beyond every candidate limit (MD013 lets a
+    # line pass when only its last word sticks out)
+    probe = "\n\n".join((("ab " * 50)[: n - 1] + "c").replace(" c", "cc") for n in V_LENGTHS) + "\n"
+    p = sb.write("probe.md", probe)
+    o = app.invoke(args + ["scan", p])
+    R.count("invocations")
+    R.count("value_cases")
+    pattern = "".join("SCDP"[i] if present[k] else "-" for i, k in enumerate(("set", "config", "default", "pyproject")))
+    R.distinct.add(PL.mix("V", pattern, fmt, named) & 0xFFFFFFFFFFFF)
+    fired = sorted(f[1] for f in o.failures if f[3] == "MD013")
+    expect = [1 + 2 * i for i, n in enumerate(V_LENGTHS) if n > want]
+    if (o.err and "Error" in o.errtext) or fired != expect:
+        return [f"setting-precedence:{pattern}", {"case": f"V:{ci}", "layers(set,config,default-file,pyproject)": pattern, "addressed_as": key, "format": FORMATS[fmt][0],
+                                                    "model_line_length": want, "md013_fired_on_lines": fired, "expected_lines": expect, "stderr": o.errtext[:200]}]
+    R.count("observations_agreeing_with_model")
+    return None
+
+
+# ------------------------------------------------------------------------------------------------
 # X: strict mode may be switched on/off in every layer; an invalid value stops the run iff it is on
 BAD_VALUES = [("md013", "line_length", "notanumber", "--set"), ("md013", "line_length", "notanumber", "config"), ("md007", "indent", True, "config"), ("md029", "style", "$#3", "--set")]
 _SC = None
@@ -440,6 +495,10 @@ def run_items(items, job):
                 R.viol.append([key, res[0], res[1]])
         elif cls == "X":
             res = run_strict(int(ci), sb, app, R)
+            if res:
+                R.viol.append([key, res[0], res[1]])
+        elif cls == "V":
+            res = run_value(int(ci), sb, app, R)
             if res:
                 R.viol.append([key, res[0], res[1]])
         elif cls == "A":
